@@ -210,4 +210,116 @@ theorem coarsenYC_ok (asr : Bool) (s : HState) (nX nY : Nat) (h : Inv nX nY s) (
       if_pos ⟨hi', hp⟩]
   · rw [updateCellToBinC_ok _ (allocInv_coarsenY s nY hok h.alloc), andThen_ok]
 
+/-! ### `check()`: `usage += binUsage(i, j)` and `assert(usage == totalDemand())` -/
+
+theorem sum_flatten_int : ∀ L : List (List Int), L.flatten.sum = (L.map List.sum).sum
+  | [] => rfl
+  | l :: L => by simp [List.sum_append, sum_flatten_int L]
+
+theorem sum_map_flatMap (f : Nat → List Nat) (g : Nat → Int) : ∀ l : List Nat,
+    ((l.flatMap f).map g).sum = (l.map fun i => ((f i).map g).sum).sum
+  | [] => rfl
+  | a :: l => by simp [List.flatMap_cons, List.sum_append, sum_map_flatMap f g l]
+
+theorem perm_sum_int {l1 l2 : List Int} (h : l1.Perm l2) : l1.sum = l2.sum := by
+  induction h with
+  | nil => rfl
+  | cons x _ ih => simp [ih]
+  | swap x y l => simp only [List.sum_cons]; omega
+  | trans _ _ ih1 ih2 => omega
+
+theorem sum_filter_zero (p : Nat → Bool) (d : Nat → Int) : ∀ l : List Nat, (∀ c ∈ l, p c = false → d c = 0) →
+    ((l.filter p).map d).sum = (l.map d).sum
+  | [], _ => rfl
+  | a :: l, h => by
+    have ih := sum_filter_zero p d l (fun c hc => h c (by simp [hc]))
+    by_cases hp : p a = true
+    · simp [List.filter_cons, hp, ih]
+    · have hp' : p a = false := by simpa using hp
+      have := h a (by simp) hp'
+      simp [List.filter_cons, hp', ih, this]
+
+/-- under the allocation invariant a bin holds each cell at most once: at most `nbCells` cells -/
+theorem AllocInv.cells_length {s : HState} (h : AllocInv s) (i j : Nat) : (s.cells i j).length ≤ s.nbCells := by
+  have := List.Nodup.length_le_of_subset (h.nodup i j) (l₂ := List.range s.nbCells)
+    (fun c hc => List.mem_range.mpr ((h.covers c).mpr ⟨i, j, hc⟩).1)
+  simpa using this
+
+/-- the usage of all bins of the view is the total demand -/
+theorem flat_demand_sum (s : HState) (h : AllocInv s) (hd : DemandOk s.demand) :
+    (s.flat.map s.cellDemand).sum = s.demand.sum := by
+  have hnd : s.flat.Nodup := nodup_flatOf s.nbX s.nbY s.bins h.nodup h.disjoint
+  have hnd2 : ((List.range s.nbCells).filter fun c => decide (s.cellDemand c > 0)).Nodup :=
+    List.Nodup.filter _ List.nodup_range
+  have hperm : s.flat.Perm ((List.range s.nbCells).filter fun c => decide (s.cellDemand c > 0)) := by
+    rw [List.perm_ext_iff_of_nodup hnd hnd2]
+    intro c
+    simp only [List.mem_filter, List.mem_range, decide_eq_true_eq]
+    constructor
+    · intro hc
+      exact (h.covers c).mpr (mem_flat hc)
+    · intro hc
+      obtain ⟨i, j, hij⟩ := (h.covers c).mp hc
+      obtain ⟨hi, hj⟩ := h.in_range hij
+      exact (mem_flatOf s.nbX s.nbY s.bins c).mpr ⟨i, j, hi, hj, hij⟩
+  rw [perm_sum_int (hperm.map s.cellDemand)]
+  rw [sum_filter_zero (fun c => decide (s.cellDemand c > 0)) s.cellDemand (List.range s.nbCells) (by
+    intro c _ hp
+    have := (hd.getD c).1
+    have hp' : ¬ s.cellDemand c > 0 := by simpa using hp
+    unfold HState.cellDemand at hp' ⊢
+    omega)]
+  have := range_map_getD (0 : Int) (fun x => x) s.demand
+  simp only [List.map_id'] at this
+  unfold HState.cellDemand HState.nbCells
+  rw [this]
+
+/-- **`check()`'s usage accumulation**: in a state of C16's invariant with demands of the domain, every
+`binUsage(i, j)` and the 64-bit accumulation evaluate without fault and `usage == totalDemand()` holds -/
+theorem usageSumC_ok (asr : Bool) (s : HState) (nX nY : Nat) (h : Inv nX nY s) (hd : DemandOk s.demand) :
+    s.usageSumC asr = .ok s.demand.sum := by
+  have ha := h.alloc
+  have hu : ∀ i j, i < s.nbX → j < s.nbY → s.binUsageC asr i j = .ok (s.binUsage i j) := by
+    intro i j hi hj
+    apply binUsageC_ok asr s i j (by rw [ha.shapeX]; exact hi) (by rw [ha.shapeY i hi]; exact hj)
+      (fun c hc => ((ha.covers c).mpr ⟨i, j, hc⟩).1) _ hd
+    have := ha.cells_length i j
+    have := hd.1
+    unfold HState.nbCells at *
+    omega
+  have htab : mapC (fun i => mapC (fun j => s.binUsageC asr i j) (List.range s.nbY)) (List.range s.nbX) =
+      .ok ((List.range s.nbX).map fun i => (List.range s.nbY).map fun j => s.binUsage i j) := by
+    apply mapC_ok
+    intro i hi
+    apply mapC_ok
+    intro j hj
+    exact hu i j (List.mem_range.mp hi) (List.mem_range.mp hj)
+  have hsum : ((List.range s.nbX).map fun i => (List.range s.nbY).map fun j => s.binUsage i j).flatten.sum =
+      s.demand.sum := by
+    rw [← flat_demand_sum s ha hd, sum_flatten_int, List.map_map]
+    unfold HState.flat
+    rw [sum_map_flatMap]
+    congr 1
+    apply List.map_congr_left
+    intro i _
+    simp only [Function.comp]
+    rw [sum_map_flatMap]
+    rfl
+  have hnn : ∀ v ∈ ((List.range s.nbX).map fun i => (List.range s.nbY).map fun j => s.binUsage i j).flatten, 0 ≤ v := by
+    intro v hv
+    obtain ⟨row, hrow, hv'⟩ := List.mem_flatten.mp hv
+    obtain ⟨i, _, rfl⟩ := List.mem_map.mp hrow
+    obtain ⟨j, _, rfl⟩ := List.mem_map.mp hv'
+    unfold HState.binUsage
+    apply sum_nonneg_int
+    intro w hw
+    obtain ⟨c, _, rfl⟩ := List.mem_map.mp hw
+    exact (hd.getD c).1
+  have hb := sum_le_mul 2147483647 s.demand (fun v hv => (hd.2 v hv).2)
+  have hl : (s.demand.length : Int) ≤ 1048576 := by have := hd.1; omega
+  unfold HState.usageSumC
+  rw [htab, andThen_ok, sumC_ok _ _ 0 hnn (by omega) (by rw [hsum]; omega), andThen_ok, totalDemandC_ok s hd, andThen_ok,
+    assertC_true asr _ (decide_eq_true (by rw [hsum]; omega)), andThen_ok, hsum]
+  simp
+
 end ColoVerif.Grid
